@@ -24,6 +24,8 @@ func init() {
 		{Name: "remaining-length-helper-counts-packet-id-for-qos3", Rule: "R10.7", Where: "Publish", Edits: []Edit{
 			{"publish.go", "\tremainingLen := vbint(p.variableHeader(_LEN, 0))\n\n\tif len(p.payload) > 0 {\n\t\tremainingLen += vbint(p.payload.fill(_LEN, 0))\n\t}\n", "\tremainingLen := p.remainingLen()\n"},
 			{"publish.go", "func (p *Publish) variableHeader(b []byte, i int) int {", "func (p *Publish) remainingLen() vbint {\n\tpropl := p.properties(_LEN, 0)\n\tn := p.topicName.width()\n\tif p.QoS() > 0 {\n\t\tn += p.packetID.width()\n\t}\n\tn += vbint(propl).width() + propl\n\tn += p.payload.width()\n\treturn vbint(n)\n}\n\nfunc (p *Publish) variableHeader(b []byte, i int) int {"}}},
+		{Name: "sub-encoder-returns-the-offset-on-its-empty-path", Rule: "R10.2", Where: "(*Unsubscribe).payload#return-convention", Edits: []Edit{{"unsubscribe.go", "func (p *Unsubscribe) payload(b []byte, i int) int {\n", "func (p *Unsubscribe) payload(b []byte, i int) int {\n\tif len(p.filters) == 0 {\n\t\treturn i\n\t}\n"}}},
+		{Name: "packet-encoder-refuses-by-returning-zero", Rule: "R10.2", Where: "(*Unsubscribe).fill#return-convention", Edits: []Edit{{"unsubscribe.go", "func (p *Unsubscribe) fill(b []byte, i int) int {\n", "func (p *Unsubscribe) fill(b []byte, i int) int {\n\tif len(p.filters) == 0 {\n\t\treturn 0\n\t}\n"}}},
 		{Name: "string-prints-other-size", Rule: "R10.4", Where: "(*SubAck).String", Edits: []Edit{{"suback.go", "\t\tfirstByte(p.fixed).String(),\n\t\tp.packetID,\n\t\tp.width(),\n\t)\n}\n\nfunc (p *SubAck) dump", "\t\tfirstByte(p.fixed).String(),\n\t\tp.packetID,\n\t\tp.variableHeader(_LEN, 0),\n\t)\n}\n\nfunc (p *SubAck) dump"}}},
 		{Name: "undefined-writes-first", Rule: "R10.5", Where: "(*Undefined).WriteTo", Edits: []Edit{{"undefined.go", "\treturn 0, fmt.Errorf(\"cannot write %T\", p)", "\tw.Write(p.data)\n\treturn 0, fmt.Errorf(\"cannot write %T\", p)"}}},
 		{Name: "undefined-returns-nil", Rule: "R10.5", Where: "(*Undefined).WriteTo", Edits: []Edit{{"undefined.go", "\treturn 0, fmt.Errorf(\"cannot write %T\", p)", "\treturn 0, nil"}}},
@@ -462,6 +464,131 @@ func checkThreading(p *Prog, c *Check, fn *ssa.Function) {
 	for f := range sc.Funcs {
 		c.Fn(f)
 	}
+	// one convention per function: a fill-family function returns a width on every path or an end position on
+	// every path — and a function whose result callers add to their offset (`i += f(b, i)`) returns a width.  The
+	// dry runs made at offset 0 cannot tell the two apart; the real run at a later offset can.
+	if _, off, _, _ := emissionsOf(p, fn); off != nil {
+		// coefficient of the entry offset in a value: 1 for the threaded offset, 0 for widths
+		var coef func(v ssa.Value, assume map[*ssa.Phi]int, depth int) (int, bool)
+		coef = func(v ssa.Value, assume map[*ssa.Phi]int, depth int) (int, bool) {
+			if depth > 60 {
+				return 0, false
+			}
+			switch x := v.(type) {
+			case *ssa.Parameter:
+				if x == off {
+					return 1, true
+				}
+				return 0, true
+			case *ssa.Const, *ssa.Call, *ssa.Extract, *ssa.UnOp:
+				return 0, true
+			case *ssa.Convert:
+				return coef(x.X, assume, depth+1)
+			case *ssa.ChangeType:
+				return coef(x.X, assume, depth+1)
+			case *ssa.BinOp:
+				a, ok1 := coef(x.X, assume, depth+1)
+				b, ok2 := coef(x.Y, assume, depth+1)
+				if !ok1 || !ok2 {
+					return 0, false
+				}
+				switch x.Op {
+				case token.ADD:
+					return a + b, true
+				case token.SUB:
+					return a - b, true
+				}
+				if a == 0 && b == 0 {
+					return 0, true
+				}
+				return 0, false
+			case *ssa.Phi:
+				if c, ok := assume[x]; ok {
+					return c, true
+				}
+				for _, guess := range []int{0, 1} {
+					assume[x] = guess
+					okAll := true
+					for _, ed := range x.Edges {
+						if c, ok := coef(ed, assume, depth+1); !ok || c != guess {
+							okAll = false
+							break
+						}
+					}
+					if okAll {
+						return guess, true
+					}
+				}
+				delete(assume, x)
+				return 0, false
+			}
+			return 0, false
+		}
+		nabs, nrel := 0, 0
+		absAt, relAt := "", ""
+		for _, b := range fn.Blocks {
+			ret, ok := terminator(b).(*ssa.Return)
+			if !ok || len(ret.Results) != 1 {
+				continue
+			}
+			switch c0, ok := coef(ret.Results[0], map[*ssa.Phi]int{}, 0); {
+			case ok && c0 == 0:
+				nrel++
+				relAt = posOf(p, ret)
+			case ok && c0 == 1:
+				nabs++
+				absAt = posOf(p, ret)
+			}
+		}
+		if nabs+nrel > 0 {
+			cons := qname(fn) + "#return-convention"
+			switch {
+			case nabs > 0 && nrel > 0:
+				c.Bad("R10.2", cons, p.Pos(fn.Pos()), "the function returns a width at "+relAt+" and the entry offset plus a width at "+absAt+": at any offset but 0 one of them is wrong for the caller")
+			case nabs > 0 && p.emissionCallees()[fn]:
+				c.Bad("R10.2", cons, p.Pos(fn.Pos()), "the function returns an end position ("+absAt+") but callers add its result to their offset as a width")
+			default:
+				c.OK("R10.2", cons, p.Pos(fn.Pos()), fmt.Sprintf("one return convention on all %d return(s), matching how the result is used", nabs+nrel))
+			}
+		}
+	}
+}
+
+// emissionCallees: the fill-family functions whose result some caller uses as the width of an emission.
+func (p *Prog) emissionCallees() map[*ssa.Function]bool {
+	if v, ok := p.cache["emcallees"]; ok {
+		return v.(map[*ssa.Function]bool)
+	}
+	out := map[*ssa.Function]bool{}
+	for _, fn := range p.AllFuncs() {
+		if !isFillFamily(fn) {
+			continue
+		}
+		_, _, ems, _ := emissionsOf(p, fn)
+		for _, e := range ems {
+			// the call's result is used as an addend (not as the new offset)
+			usedAsWidth := false
+			if refs := e.call.Referrers(); refs != nil {
+				for _, r := range *refs {
+					if bo, ok := r.(*ssa.BinOp); ok && bo.Op == token.ADD {
+						usedAsWidth = true
+					}
+				}
+			}
+			if !usedAsWidth {
+				continue
+			}
+			if sc := e.call.Call.StaticCallee(); sc != nil {
+				out[sc] = true
+			} else if callees, _ := p.CG().Callees(e.call); len(callees) > 0 {
+				for _, cal := range callees {
+					out[cal] = true
+				}
+			}
+		}
+	}
+	p.cache["emcallees"] = out
+	return out
 }
 
 func checkThreadingSyntactic(p *Prog, c *Check, fn *ssa.Function) {
@@ -1352,6 +1479,17 @@ func checkFrameArithmetic(p *Prog, c *Check) {
 				specs = append(specs, sp)
 			}
 		}
+		if payloadList[tn] != "" {
+			// … and the packet without any filter / reason code
+			for _, sp := range append([]stateSpec(nil), specs...) {
+				if sp.bias > 0 || !(strings.HasPrefix(sp.name, "none") || strings.HasPrefix(sp.name, "all")) || strings.Contains(sp.name, "twice") || strings.Contains(sp.name, "but") {
+					continue
+				}
+				sp.name += ", empty payload list"
+				sp.emptyList = true
+				specs = append(specs, sp)
+			}
+		}
 		for _, spec := range specs {
 			if spec.will == 1 && will == nil {
 				will, _ = p.willState()
@@ -1360,7 +1498,7 @@ func checkFrameArithmetic(p *Prog, c *Check) {
 			if spec.will == 1 {
 				wp = will
 			}
-			if spec.will == 3 {
+			if spec.will == 3 || spec.will == 1 && spec.bias > 0 {
 				wp, _ = p.willFor(spec)
 			}
 			st, why := p.buildStateSpec(tn, spec, nil, wp)
